@@ -118,10 +118,29 @@ class OneSidedEq:
     __hash__ = None  # type: ignore[assignment]
 
 
+class Opaque:
+    """A payload the tools have no business looking INTO: its truth value, equality, hash and length all raise.
+    Tools that merely pass items along (zip, enumerate, islice, batched, chain, tee, ...) never notice; the few that
+    do ask (filter(None, ...), compress selectors, all/any) fail exactly like their counterparts."""
+
+    def __init__(self, k: Any):
+        self.k = k
+
+    def __repr__(self) -> str:
+        return f"Opaque({self.k!r})"
+
+    def _refuse(self, *args: Any) -> Any:
+        raise ValueError(f"{self!r} was inspected")
+
+    __bool__ = __eq__ = __ne__ = __hash__ = __len__ = __lt__ = __gt__ = _refuse  # type: ignore[assignment]
+
+
 def decode(v: Any) -> Any:
     """Decode a JSON-able raw value."""
     if isinstance(v, list):
         tag = v[0]
+        if tag == "Op":
+            return Opaque(v[1])
         if tag == "Eq":
             return OneSidedEq(v[1], v[2])
         if tag == "X":
@@ -358,6 +377,8 @@ _reg("merge", "iter", lambda S, F, P: heapq.merge(*S, **_kr(F, P)), lambda S, F,
 _reg("iter_sentinel", "iter", lambda S, F, P: builtins.iter(F[0], P["sentinel"]),
      lambda S, F, P: A.iter(F[0], P["sentinel"]), 1)
 _reg("tee", "tee", lambda S, F, P: itertools.tee(S[0], P["n"]), lambda S, F, P: A.tee(S[0], P["n"]))
+# asynctools.any_iter: "whatever kind of iterable" -> async iterator of its items (only used by C03 / C19)
+_reg("any_iter", "iter", lambda S, F, P: builtins.iter(S[0]), lambda S, F, P: A.any_iter(S[0]))
 
 # aggregations
 _reg("all", "agg", lambda S, F, P: builtins.all(S[0]), lambda S, F, P: A.all(S[0]))
